@@ -39,6 +39,17 @@ def signature(body):
     return [body["locals"][i]["ty"] for i in range(1, body["arg_count"] + 1)] + ["-> " + body["locals"][0]["ty"]]
 
 
+def call_fingerprint(body):
+    """names of the functions a MIR body calls, in block order (used only to tell apart renamed functions that share parent and signature)"""
+    out = []
+    for bl in body["blocks"]:
+        t = bl["term"]
+        if t["k"] == "Call" and not bl.get("cleanup"):
+            fn_ = (t["func"].get("fn") or {})
+            out.append(fn_.get("name") or "?")
+    return out
+
+
 def fn_paths(facts):
     """{normalised path: {"sig": signature, "params": [[name, type], ..]}} of every function of the crate"""
     mir_by_norm = {facts.norm(p): b for p, b in facts.mir.items() if b.get("promoted") is None}
@@ -48,7 +59,8 @@ def fn_paths(facts):
             n = facts.norm(p)
             b = mir_by_norm.get(n)
             out[n] = {"sig": signature(b) if b is not None else None,
-                      "params": [[b["locals"][i]["name"], b["locals"][i]["ty"]] for i in range(1, b["arg_count"] + 1)] if b is not None else None}
+                      "params": [[b["locals"][i]["name"], b["locals"][i]["ty"]] for i in range(1, b["arg_count"] + 1)] if b is not None else None,
+                      "calls": call_fingerprint(b) if b is not None else None}
     return dict(sorted(out.items()))
 
 
@@ -141,6 +153,12 @@ def apply_renames(facts):
         parent = old.rsplit("::", 1)[0]
         cands = [n for n in new if n.rsplit("::", 1)[0] == parent and n in cur_mir and n not in used
                  and signature(cur_mir[n][1]) == tab[old]["sig"] and "Public" not in str(cur_mir[n][1].get("vis"))]
+        if len(cands) > 1 and tab[old].get("calls") is not None:
+            # several renamed siblings with one signature (head_skip_and_spaces / head_skip_after_spaces): the one that calls the same functions
+            # in the same order
+            same = [n for n in cands if call_fingerprint(cur_mir[n][1]) == tab[old]["calls"]]
+            if len(same) == 1:
+                cands = same
         if len(cands) == 1:
             mapping[cands[0]] = old
             used.add(cands[0])
